@@ -11,7 +11,8 @@
 (***************************************************************************)
 EXTENDS TLSyntax
 
-CONSTANTS CheckPrint, CheckCanon
+CONSTANTS CheckPrint, CheckCanon,
+          Documented     \* TRUE: the canonical form of the specification; FALSE: the "as coded" variant (classification only)
 
 Trace == ndJsonDeserialize("trace.ndjson")
 
@@ -46,7 +47,7 @@ EventOK ==
   e.ev = "comb" =>
     /\ WfComb(e.ast)
     /\ (e.ast.tag # "" => e.crc = e.ast.tag)                 \* explicit tags verbatim
-    /\ (CheckCanon => /\ CanonText(e.ast) = e.canon
-                      /\ ListingLine(e.ast, e.crc) = e.listing)
+    /\ (CheckCanon => /\ Join(CanonV(e.ast, Documented), " ") = e.canon
+                      /\ ListingLineV(e.ast, e.crc, Documented) = e.listing)
     /\ (CheckPrint => PrintComb(e.ast) = e.print)
 =============================================================================
